@@ -88,7 +88,7 @@ def norm_tr_segs(segs):
     return out
 
 
-def validate(rep, exe, plans, prop, judge=True, expand=True):
+def validate(rep, exe, plans, prop, judge=True, expand=True, excuse=None):
     """returns per plan a dict with the abstract grouping (for C11/C05) or None"""
     if not plans:
         return []
@@ -143,6 +143,11 @@ def validate(rep, exe, plans, prop, judge=True, expand=True):
         # ExpandOK: structural comparison of the generated items with the abstract program of Sem.lean
         if expand:
             problems += expand_ok(d, g, fam, thetas, nkeys, fi)
+        if problems and judge and excuse is not None:
+            fid = excuse(plan, problems)
+            if fid:
+                rep.known(fid)
+                problems = []
         if problems and judge:
             rep.disagreements.append({"what": "the implementation's grouping/expansion violates a hypothesis of the refinement theorem",
                                       "problems": problems[:6], "invocation": plan.invocation_text()[:3000], "family": fi})
